@@ -27,11 +27,16 @@ EnvQ == WE("env", {"sub", "w_colonsp"}, {"default", "rel"}, {"absent"}, AllEnvs)
 \* directory is sub/, outside it otherwise) already holds a .mockery.yaml / .mockery.yml
 AncQ == WA("anc", {"sub"}, {"default", "cwdsub"}, {"absent"}, {"none"}, AncClasses)
 AncT == WA("anc", {"root", "sub", "w_colonsp"}, {"default", "cwdsub"}, {"absent"}, {"none", "several"}, AncClasses)
+\* --config strings whose lexical cleaning differs from what the kernel resolves, with something present / absent
+\* at both candidate places
+SymQ == W("sym", {"sub", "w_colonsp"}, {"linkup", "linkupabs", "linkdir", "dslash"}, {"absent", "valid", "dangling"})
+SymT == W("sym", {"root", "sub", "w_colonsp"}, {"linkup", "linkupabs", "linkdir", "dslash"}, AllInits)
 EnvT == WE("env", {"root", "sub", "w_colonsp"}, {"default", "rel", "abs", "cwdsub", "after"}, {"absent", "dangling"}, AllEnvs)
 
 \* main world: every --config class x every initial content, both Go packages and two odd strings
-Main == W("main", {"root", "sub", "w_colonsp", "w_brace"}, AllCfgs, AllInits)
-MainQ == W("main", {"sub", "w_colonsp"}, AllCfgs \ {"reldot", "eqform"}, AllInits)     \* the two spelling variants: thorough only
+Main == W("main", {"root", "sub", "w_colonsp", "w_brace"}, AllCfgs \ {"linkup", "linkupabs", "linkdir", "dslash"}, AllInits)
+MainCfgs == AllCfgs \ {"linkup", "linkupabs", "linkdir", "dslash"}      \* those four: world "sym"
+MainQ == W("main", {"sub", "w_colonsp"}, MainCfgs \ {"reldot", "eqform"}, AllInits)     \* the two spelling variants: thorough only
 
 \* worlds whose module path is itself YAML-significant: the package key `true`, `123`, ... must be written
 \* quoted for the plain run to find the package
@@ -59,9 +64,9 @@ StrWorlds == {StrWorld("s1", Odd1), StrWorld("s2", Odd2), StrWorld("s3", Odd3), 
               StrWorld("s9", Odd9), StrWorld("s10", Odd10), StrWorld("s11", Odd11), StrWorld("s12", Odd12), StrWorld("s13", Odd13), StrWorld("s14", Odd14)}
 
 OddModsQ == {"m_true", "m_null", "m_int", "m_float", "m_yes", "m_date", "m_punct", "m_hex"}
-MCWorldsQuick == {MainQ, EnvQ, AncQ} \cup {OddWorld(m) : m \in OddModsQ} \cup StrWorlds
+MCWorldsQuick == {MainQ, EnvQ, AncQ, SymQ} \cup {OddWorld(m) : m \in OddModsQ} \cup StrWorlds
 \* thorough: the same alphabets in more --config classes and initial contents
 OddWorldT(m) == WE(m, {"root", "sub"}, {"default", "rel", "abs", "cwdsub", "after"}, {"absent", "valid"}, {"none", "several"})
 StrWorldT(w) == W(w.id, w.pkgs, {"default", "rel", "abs", "subdir", "cwdsub", "eqform"}, {"absent", "valid", "empty", "twin", "link"})
-MCWorldsThorough == {Main, EnvT, AncT} \cup {OddWorldT(m) : m \in OddMods} \cup {StrWorldT(w) : w \in StrWorlds}
+MCWorldsThorough == {Main, EnvT, AncT, SymT} \cup {OddWorldT(m) : m \in OddMods} \cup {StrWorldT(w) : w \in StrWorlds}
 =============================================================================
